@@ -1,5 +1,6 @@
 """C15 — bound statecharts: sent events reach every bound target once, in order."""
 import copy
+import json
 
 from .. import gen, oracles, engine
 from ..encode import ChartEnc
@@ -18,7 +19,7 @@ class C15(InterpProp):
     cmp_callbacks = True
     cmp_err = 'class'
     cmp_time = False
-    quick_cases = 600
+    quick_cases = 1500
     thorough_cases = 15000
     n_ops = 40
     rule = ('worlds of 2–4 interpreters over random sending/notifying charts with a random binding topology (chains, '
@@ -37,6 +38,10 @@ class C15(InterpProp):
         n = rnd.randint(2, 4)
         charts, encs = [], []
         spoof = rnd.random() < 0.04
+        if not spoof and rnd.random() < 0.1:
+            n = 1
+            # (no history states here: see C05.knobs)
+            kn.p_history = 0.0
         for _ in range(n):
             sc = gen.ChartGen(rnd, kn).build()
             if spoof:
@@ -55,7 +60,9 @@ class C15(InterpProp):
         def add_binding():
             nonlocal ncb
             i = rnd.randrange(n)
-            if rnd.random() < 0.45:
+            if rnd.random() < 0.45 or n == 1:
+                # (a single interpreter is not bound to itself: what it consumes is then what was queued for it
+                #  plus what it sent, see `accounting`)
                 if ncb and rnd.random() < 0.35:
                     # a callable that is bound already (to this or to another interpreter): one more binding of it
                     again = rnd.randrange(ncb)
@@ -77,7 +84,7 @@ class C15(InterpProp):
             ops.append(['binddet', i, ncb, len(listeners) + 1])
             listeners.append([len(listeners), i, 'cb', ncb, True])
             ncb += 1
-            if rnd.random() < 0.6:
+            if rnd.random() < 0.6 or n == 1:
                 ops.append(['bindcb', i, ncb])
                 listeners.append([len(listeners), i, 'cb', ncb, False])
                 ncb += 1
@@ -85,6 +92,16 @@ class C15(InterpProp):
                 j = rnd.randrange(n)
                 ops.append(['bind', i, j])
                 listeners.append([len(listeners), i, 'bind', j, False])
+        raiser = n == 1
+        if raiser:
+            # a single interpreter whose second bound callable raises once (implementation only): whatever was
+            # announced as sent before that is queued for the sender all the same, and consumed in the end
+            ops.append(['bindcb', 0, ncb])
+            listeners.append([len(listeners), 0, 'cb', ncb, True])
+            ncb += 1
+            ops.append(['bindraise', 0, ncb, rnd.randint(1, 3)])
+            listeners.append([len(listeners), 0, 'cb', ncb, True])
+            ncb += 1
         mutator = rnd.random() < 0.1
         if mutator:
             # a bound callable that writes into the parameters of the event it was given (implementation only)
@@ -112,15 +129,19 @@ class C15(InterpProp):
                 if rnd.random() < 0.3:
                     t += rnd.choice([1, 2])
                 ops.append(['exec', i, t])
+        if raiser:
+            ops.append(['execute', 0, 10 ** 6, 60])
         payload = {'kind': 'interp', 'charts': [e.json for e in encs], 'ops': ops, 'record_deliveries': True}
-        return Case(payload, {'charts': charts}, model_ok=all(e.supported for e in encs) and not detacher and not mutator)
+        if raiser:
+            payload['raiser'] = True
+        return Case(payload, {'charts': charts}, model_ok=all(e.supported for e in encs) and not detacher and not mutator and not raiser)
 
     def shrink_candidates(self, case):
         p = case.payload
         ops = p['ops']
         n = len(p['charts'])
         for i in range(len(ops) - 1, n - 1, -1):
-            if ops[i][0] in ('bind', 'bindcb', 'detach', 'binddet', 'bindmut'):
+            if ops[i][0] in ('bind', 'bindcb', 'detach', 'binddet', 'bindmut', 'bindraise', 'execute'):
                 continue
             q = copy.deepcopy(p)
             del q['ops'][i]
@@ -134,7 +155,7 @@ class C15(InterpProp):
         broken = set()    # interpreters that raised (their queues are no longer predictable)
         detaches = {}     # listener id of a detaching callable -> listener it detaches on its first event
         for k, (op, ob) in enumerate(zip(ops, obs['obs'])):
-            if op[0] in ('bind', 'bindcb', 'binddet', 'bindmut'):
+            if op[0] in ('bind', 'bindcb', 'binddet', 'bindmut', 'bindraise'):
                 bound[nl] = [op[1], 'bind' if op[0] == 'bind' else 'cb', op[2], True]
                 if op[0] != 'bind':
                     recv.setdefault(op[2], [])
@@ -206,12 +227,52 @@ class C15(InterpProp):
                     if got != exp:
                         res.violations.append('op %d: callable %d received %s, expected %s' % (k, cbk, got[-3:], exp[-3:]))
                         recv[cbk] = list(got)
+        if case.payload.get('raiser'):
+            self.accounting(case, obs, res)
         if any("notify('event sent'" in (t.action or '') for sc in case.aux['charts'] for t in sc.transitions):
             res.features.add('spoofed-event-sent')
         if any(not b[3] for b in bound.values()):
             res.features.add('detached')
         if not res.features:
             res.features.add('no-feature')
+
+    def accounting(self, case, obs, res):
+        """one interpreter, drained at the end: what it consumed is what was queued for it plus what it announced as
+        sent — also across the exception a bound callable raised"""
+        ops = case.payload['ops']
+        last = obs['obs'][-1]['r']
+        if not isinstance(last, dict) or last.get('err') is not None or res.violations or len(last.get('steps', [])) >= 60:
+            return      # (not drained: the statechart keeps sending itself events)
+        if obs['obs'][-1]['world']['slots'][0]['final']:
+            return      # (a statechart that ended leaves what is still queued where it is)
+        key = lambda e: json.dumps(e, sort_keys=True)
+        from ..interp_prop import ev_delay
+        expected, consumed = [], []     # (what is due by the end) / (what was consumed)
+        tnow = 0
+        tend = ops[-1][2]
+        for op, ob in zip(ops, obs['obs']):
+            r = ob['r']
+            if op[0] == 'queue':
+                if tnow + ev_delay(op[2]) <= tend:
+                    expected.append(key(op[2]))
+            elif op[0] in ('exec', 'execute') and isinstance(r, dict):
+                tnow = op[2]
+                for m in oracles.meta_effects(r.get('eff', [])):
+                    if m['ev'] == 'event sent':
+                        e = dict(map(tuple, m['data']))['event']
+                        if tnow + ev_delay(e) <= tend:
+                            expected.append(key(e))
+                    elif m['ev'] == 'event consumed':
+                        consumed.append(key(dict(map(tuple, m['data']))['event']))
+                if isinstance(r.get('err'), dict) or r.get('outcome') == 'error':
+                    res.features.add('a-bound-callable-raised')
+        if sorted(consumed) != sorted(expected):
+            missing = list(expected)
+            for c in consumed:
+                if c in missing:
+                    missing.remove(c)
+            res.violations.append('drained at the end (time %d), the interpreter consumed %d events; %d were queued for it or announced by it '
+                                  'as sent and due by then: never consumed %s' % (tend, len(consumed), len(expected), missing[:3]))
 
     def known_signature(self, finding, case, res):
         if finding.get('signature') == 'notify-event-sent':
